@@ -41,28 +41,26 @@ func installHook() {
 			switch ev {
 			case "cache.lookup", "cache.store", "cache.evict", "cache.reset":
 				c, _ := args[0].(*graphql.PlanCache)
-				v, ok := cacheLogs.Load(c)
-				if !ok {
-					return
+				if v, ok := cacheLogs.Load(c); ok {
+					cl := v.(*cacheLog)
+					ce := cacheEvent{E: ev[len("cache."):]}
+					if len(args) > 1 {
+						ce.Key, _ = args[1].(string)
+					}
+					if len(args) > 2 {
+						ce.Schema, _ = args[2].(*graphql.Schema)
+					}
+					if len(args) > 3 {
+						ce.Out, _ = args[3].(string)
+					}
+					if len(args) > 4 {
+						ce.Len, _ = args[4].(int)
+					}
+					// the hook runs under the cache mutex: the log order is the lock order
+					cl.mu.Lock()
+					cl.evs = append(cl.evs, ce)
+					cl.mu.Unlock()
 				}
-				cl := v.(*cacheLog)
-				ce := cacheEvent{E: ev[len("cache."):]}
-				if len(args) > 1 {
-					ce.Key, _ = args[1].(string)
-				}
-				if len(args) > 2 {
-					ce.Schema, _ = args[2].(*graphql.Schema)
-				}
-				if len(args) > 3 {
-					ce.Out, _ = args[3].(string)
-				}
-				if len(args) > 4 {
-					ce.Len, _ = args[4].(int)
-				}
-				// the hook runs under the cache mutex: the log order is the lock order
-				cl.mu.Lock()
-				cl.evs = append(cl.evs, ce)
-				cl.mu.Unlock()
 			}
 			extraHookMu.RLock()
 			hs := extraHooks
